@@ -37,6 +37,7 @@ class Module:
         self.sem_aligned = set()
         if relpath.startswith("sasmodels/") and not os.environ.get("SA_NO_SEMALIGN"):
             from . import refs
+            refs.rename_map()
             self.sem_aligned = refs.sem_align(self)
             if self.sem_aligned:
                 # parents / index of the substituted bodies
@@ -61,6 +62,13 @@ class Module:
 
     def func(self, qualname):
         f = self.functions.get(qualname)
+        if f is None and self.relpath.startswith("sasmodels/"):
+            # a function that was renamed (same fold as its reference under a new name in the same scope) is read under
+            # its new name
+            from . import refs
+            new = refs.rename_map().get(self.relpath, {}).get(qualname)
+            if new:
+                f = self.functions.get(new)
         if f is None:
             raise AnalysisError("anchor function missing: %s:%s" % (self.relpath, qualname))
         trace = os.environ.get("SA_TRACE_FUNCS")
@@ -70,7 +78,13 @@ class Module:
         return f
 
     def has(self, qualname):
-        return qualname in self.functions
+        if qualname in self.functions:
+            return True
+        if self.relpath.startswith("sasmodels/"):
+            from . import refs
+            new = refs.rename_map().get(self.relpath, {}).get(qualname)
+            return bool(new) and new in self.functions
+        return False
 
     def cls(self, name):
         c = self.classes.get(name)
